@@ -122,6 +122,7 @@ struct Scen {
     max_memory: Option<usize>,
     fw: Option<f64>,
     entries: Vec<(String, u64, u128, u64, usize)>, // key val age hits size  (queue order)
+    phase_ms: u64, // run the scenario when the wall clock's sub-second part has reached this many milliseconds (async engine)
     handle_delay: u128, // time between building the cache handle and using it: ns (sync engines) / s (async)
     orphans: Vec<String>,
     ops: Vec<Vec<String>>,
@@ -256,6 +257,17 @@ fn run_core(s: &Scen) -> Vec<String> {
             AMAP.clear();
             AORDER.lock().clear();
             ASTATS.reset();
+            if s.phase_ms > 0 {
+                // wait (at most ~1 s) until the wall clock is `phase_ms` into its current second, with room left before the next one
+                let t0 = Instant::now();
+                loop {
+                    let ms = SystemTime::now().duration_since(UNIX_EPOCH).unwrap().subsec_millis() as u64;
+                    if (ms >= s.phase_ms && ms < 960) || t0.elapsed() > Duration::from_millis(1500) {
+                        break;
+                    }
+                    std::thread::sleep(Duration::from_millis(2));
+                }
+            }
             let now = now_secs();
             for (k, v, age, hits, size) in &s.entries {
                 AMAP.insert(k.clone(), (V { id: *v, size: *size }, now.saturating_sub(*age as u64), *hits));
@@ -419,6 +431,7 @@ fn main() {
             "fw" => cur.fw = opt(&t[1]),
             "entry" => cur.entries.push((t[1].clone(), t[2].parse().unwrap(), t[3].parse().unwrap(), t[4].parse().unwrap(), t[5].parse().unwrap())),
             "handle_delay" => cur.handle_delay = t[1].parse().unwrap(),
+            "phase_ms" => cur.phase_ms = t[1].parse().unwrap(),
             "orphan" => cur.orphans.push(t[1].clone()),
             "op" => cur.ops.push(t[1..].to_vec()),
             "cthread" => {
